@@ -154,7 +154,7 @@ fn check_mapper(rng: &mut Rng, res: &mut CaseResult) {
 }
 
 pub fn run(ctx: &Ctx) -> i32 {
-    let n = ctx.tier.pick(20_000u64, 400_000u64);
+    let n = ctx.tier.pick(100_000u64, 1_000_000u64);
     let sum = run_cases(ctx, n, |i| {
         let mut rng = Rng::derive(ctx.seed, "C18", i);
         let mut res = CaseResult::default();
